@@ -79,10 +79,19 @@ func ConditionalRetryByExponentialBackoff(f func() error, cond func() bool, maxR
 
 		delay := float64(baseDelay) * math.Pow(multiplier, float64(retry))
 		jitter := (rand.Float64() - 0.5) * randomization * float64(baseDelay)
-		sleepDuration := time.Duration(delay + jitter)
+		sleep := delay + jitter
 
-		if sleepDuration > maxDelay {
-			sleepDuration = maxDelay
+		// float64 -> Duration is only defined below 2^63: beyond it (and for +Inf, NaN) the
+		// conversion yields a negative value that would slip through the comparison with maxDelay
+		sleepDuration := maxDelay
+		if sleep < 1<<63 {
+			sleepDuration = time.Duration(sleep)
+			if sleepDuration > maxDelay {
+				sleepDuration = maxDelay
+			}
+		}
+		if sleepDuration < 0 || baseDelay <= 0 {
+			sleepDuration = 0
 		}
 
 		time.Sleep(sleepDuration)
